@@ -7,12 +7,14 @@ SID="$1"; PROP="$2"; D=/verif/seeded/$SID; WT=/tmp/wt/fix
 cd "$WT" || exit 2
 git checkout -q --detach main; git reset -q --hard main; git clean -fdq -e target
 DEMO=$(basename "$D"/demo_*.rs .rs)
-cp "$D/$DEMO.rs" air/tests/
-run_demo() { cargo test -p aquavm-air --features air-test-utils/test_with_native_code,check_signatures,gen_signatures --offline --test "$DEMO" > "$WT/target/demo.log" 2>&1; echo $?; }
+DEMO_DIR="${DEMO_DIR:-air/tests}"; DEMO_PKG="${DEMO_PKG:-aquavm-air}"
+DEMO_FEATURES="${DEMO_FEATURES---features air-test-utils/test_with_native_code,check_signatures,gen_signatures}"
+mkdir -p "$DEMO_DIR"; cp "$D/$DEMO.rs" "$DEMO_DIR/"
+run_demo() { cargo test -p "$DEMO_PKG" $DEMO_FEATURES --offline --test "$DEMO" > "$WT/target/demo.log" 2>&1; echo $?; }
 r_without=$(run_demo); w1=$(grep -E "^test result" "$WT/target/demo.log" | head -1)
 patch -p1 -s < "$D/patch.diff" || { echo "$SID: patch does not apply"; exit 2; }
 r_with=$(run_demo); w2=$(grep -E "^test result" "$WT/target/demo.log" | head -1)
-rm -f "air/tests/$DEMO.rs"
+rm -f "$DEMO_DIR/$DEMO.rs"
 b=$(bash /verif/bin/baseline "$WT" | head -1)
 ok=no; if [ "$r_without" = 0 ] && [ "$r_with" != 0 ] && echo "$b" | grep -q "407/407"; then ok=yes; fi
 echo "$SID: demo without patch exit=$r_without ($w1); with patch exit=$r_with ($w2); $b; CONFIRMED=$ok"
@@ -24,7 +26,7 @@ meta=json.load(open(p)) if os.path.exists(p) else {}
 meta.update({"property":prop,"origin":"independent sub-agent (given only the property text and a scratch worktree)","demo_test":demo,
  "confirmed": ok=="yes",
  "confirmation":{"demo_without_patch":w1 or "passes","demo_with_patch":w2 or "fails","baseline_with_patch":b},
- "ran":["cargo test -p aquavm-air --features air-test-utils/test_with_native_code,check_signatures,gen_signatures --offline --test "+demo+" (clean tree, then with patch.diff)","bin/baseline <scratch worktree> with patch.diff applied and the demo removed"],
+ "ran":["cargo test -p <package of the demo> [native + signature features for aquavm-air] --offline --test "+demo+" (clean tree, then with patch.diff)","bin/baseline <scratch worktree> with patch.diff applied and the demo removed"],
  "needs":"see NOTES.md (written by the sub-agent)"})
 json.dump(meta,open(p,'w'),indent=1)
 PY
